@@ -1,5 +1,5 @@
 import Wx.Job.C04
-import Wx.Job.Sim
+import Wx.Job.Inject
 /-! C04 for every state the simulator can reach: any script, any race resolution, any fix flags. -/
 namespace Jm
 
@@ -116,6 +116,9 @@ theorem inv_stepOp {x : Sim} (o : Op) (h : Inv x.st) : ∀ y ∈ stepOp x o, Inv
   | dropHandles =>
     simp only [stepOp, List.mem_singleton] at hy; subst hy
     exact inv_congr (s := x.st) rfl rfl rfl h
+  | inject p cs aw =>
+    simp only [stepOp] at hy
+    exact injectAll_ind (fun z => Inv z.st) p cs aw (fun z s' hz hs' => inv_turns hz s' hs') (fun z hz => inv_doSend p cs aw hz) 50 h y hy
 
 theorem inv_runOps (ops : List Op) {x : Sim} (h : Inv x.st) : ∀ y ∈ runOps x ops, Inv y.st := by
   induction ops generalizing x with
